@@ -135,8 +135,31 @@ func (g *Gen) call(fr *Frame, st *State, c *ssa.CallCommon, res ssa.Value) Val {
 	var ret Val
 	if con != nil && !con.Inline && !(callee.Parent() != nil && len(con.Ensures) == 0 && len(con.Requires) == 0 && !con.HasModifies) {
 		ret = g.applyContract(fr, st, con, callee.Signature, args, false, resT, pkgOf(callee), key)
-	} else if callee.Parent() != nil || (con != nil && con.Inline) || g.autoInline(fr, callee, c) {
+	} else if callee.Parent() != nil || (con != nil && con.Inline) {
 		ret = g.inline(fr, st, callee, args, bindings, resT)
+	} else if g.autoInline(fr, callee, c) {
+		// a helper without a contract: executed in place when its body lies within the subset, otherwise
+		// translated as an unknown call (as it was before helpers were executed in place)
+		nObl := len(g.obls)
+		saved := st.clone()
+		ok := func() (ok bool) {
+			defer func() {
+				if r := recover(); r != nil {
+					if _, isRej := r.(rejectErr); isRej {
+						ok = false
+						return
+					}
+					panic(r)
+				}
+			}()
+			ret = g.inlineHelper(fr, st, callee, args, resT)
+			return true
+		}()
+		if !ok {
+			g.obls = g.obls[:nObl]
+			*st = *saved
+			ret = g.uncontracted(fr, st, c, args, resT, key)
+		}
 	} else {
 		ret = g.uncontracted(fr, st, c, args, resT, key)
 	}
@@ -260,13 +283,15 @@ func touchesHeap(c *ssa.CallCommon) bool {
 // harmless edit and must not raise an alarm by itself. Such a helper is now executed in place -
 // its stores are checked against the CALLER's frame and its result is what its body computes -
 // provided it is loop-free (a loop needs an invariant), not recursive and the nesting stays small.
-// Calls that were accepted before (callee cannot touch the heap, or the caller declares
-// `modifies heap`) are translated as before.
+// Since the benign-edit round (DESIGN 10.13) this also holds for callers that declare `modifies heap`:
+// there the helper used to be translated as "anything may have happened to the heap", which turned
+// every extraction of a helper from such a function into an alarm. Calls whose callee cannot touch
+// the heap at all are translated as before.
 func (g *Gen) autoInline(fr *Frame, callee *ssa.Function, c *ssa.CallCommon) bool {
 	if callee == nil || len(callee.Blocks) == 0 || callee.Parent() != nil || c == nil {
 		return false
 	}
-	if g.con == nil || g.con.IsLemma || g.specMode || hasHeapModifies(g.con) {
+	if g.con == nil || g.con.IsLemma || g.specMode {
 		return false
 	}
 	if g.contractOf(funcKey(callee)) != nil || g.P.isSpec(callee) {
@@ -293,6 +318,27 @@ func (g *Gen) autoInline(fr *Frame, callee *ssa.Function, c *ssa.CallCommon) boo
 	}
 	g.note("helper without a contract executed in place (checked against the caller's frame): " + funcKey(callee))
 	return true
+}
+
+func (g *Gen) inlineHelper(fr *Frame, st *State, callee *ssa.Function, args []Val, resT types.Type) Val {
+	nf := g.newFrame(callee, fr)
+	nf.inlined = true
+	nf.helper = true
+	nf.entry = fr.entry
+	for i, p := range callee.Params {
+		if i < len(args) {
+			nf.vals[p] = args[i]
+		}
+	}
+	exit, results := g.execBody(nf, st.clone())
+	*st = *exit
+	switch len(results) {
+	case 0:
+		return Val{T: "true"}
+	case 1:
+		return results[0]
+	}
+	return Val{Tuple: results}
 }
 
 func (g *Gen) uncontracted(fr *Frame, st *State, c *ssa.CallCommon, args []Val, resT types.Type, what string) Val {
@@ -431,8 +477,18 @@ func (g *Gen) applyContract(fr *Frame, st *State, con *FuncContract, sig *types.
 		env.vars[n] = CV{T: t, Ty: ptypes[i], Sort: "Int", P: ip}
 	}
 	// variadic: the last arg is already a slice
+	inHelper := false
+	for f := fr; f != nil; f = f.parent {
+		if f.helper {
+			inHelper = true
+		}
+	}
 	for _, r := range con.Requires {
 		goal := env.evalBool(r.Expr)
+		if inHelper {
+			g.assume(st, goal)
+			continue
+		}
 		g.oblige(st, "requires", fmt.Sprintf("%s/call %s#%d/requires %s", funcKey(fr.fn), shortKey(key), seq, r.Label), goal, r, nil)
 	}
 	pre := st.clone()
